@@ -31,7 +31,7 @@ def main():
             evidence_file='/verif/evidence/%s.json' % pid,
             replay_cmd_template='./check %s --replay {path}' % pid,
             engine='verus+kani',
-            level_claimed=dict(category=c['level'], text=c.get('level_text', ''), design_ref=c.get('design_ref', 'DESIGN.md section 4')),
+            level_claimed=dict(category=c['level'], text=c.get('level_text', ''), design_ref=c.get('design_ref', 'DESIGN.md section 10 (build log, authoritative); section 4 is the plan')),
             level_note=c.get('level_note', ''),
             technique=c.get('technique', 'contract-based deductive verification (Verus on mechanically extracted functions; Kani function-level proofs on the real crate)'),
         ))
